@@ -74,12 +74,14 @@ def run_property(pid, tier, seed, extract, cfgs, here, known, t0, verbose=False,
         return 2
     reports = []
     stats = {}
+    ran = []
     try:
         only = getattr(mod, 'CONFIGS', None)
         for cfg in cfgs:
             if only and cfg not in only and cfg != 'def':
                 continue
             fp = extract(cfg)
+            ran.append(cfg)
             if facts_only:
                 print(fp)
                 continue
@@ -87,7 +89,7 @@ def run_property(pid, tier, seed, extract, cfgs, here, known, t0, verbose=False,
             F.cfg = cfg
             R = Report(pid, cfg)
             mod.run(F, R)
-            floors = getattr(mod, 'FLOORS', {})
+            floors = {} if os.environ.get('VERIF_NOFLOORS') else getattr(mod, 'FLOORS', {})
             has_violation = any(o['status'] == 'violated' for o in R.obs)
             for name, spec in floors.items():
                 minimum = spec.get(cfg, spec.get('*')) if isinstance(spec, dict) else spec
@@ -170,7 +172,7 @@ def run_property(pid, tier, seed, extract, cfgs, here, known, t0, verbose=False,
     nh = sum(1 for o in obs if o['status'] == 'held')
     print('%s: %d obligations, %d held, %d violated (%d known), %d abstained; cfgs=%s; %.1fs' % (
         pid, len(obs), nh, len(viol), len(viol) - len(unknown), sum(1 for o in obs if o['status'] == 'abstained'),
-        ','.join(cfgs), time.time() - t0))
+        ','.join(ran), time.time() - t0))
     if verbose:
         for o in sorted(obs, key=lambda o: o['key']):
             print('  [%s] %s @ %s :: %s' % (o['status'], o['key'], o['site'], o['detail'][:300]))
